@@ -2,13 +2,17 @@
    Examples showing that the hypotheses have non-trivial inhabitants.
 
    NOT proved here (kept visible; exercised by the correspondence run only):
-   (* regular_accepted with a spacing hint, and with allow_missing (gaps): only the soundness direction
-      (C11_gaps_indices, C11_irregular_rejected) is proved. *)
-   (* unsorted_mode converse with atol > 0 (a large absolute tolerance can accept a non-monotone order). *)
-   (* order_invariant for stacks that are NOT regular (the rejection is the same for every order) and
-      for the assembled volume (array and affine) of get_volume_from_series / Image.get_volume. *) *)
+   (* regular_accepted under allow_missing with a hint that is only CLOSE to the spacing (h <> s): the
+      multiples k*s/h are then tested against atol + rtol*k, which holds or not depending on k; only the
+      soundness direction (C11_gaps_indices) covers it.  Proved: hint == s, or no hint (C11_gaps_accepted). *)
+   (* unsorted_mode converse with atol > 0: REFUTED (C11_unsorted_converse_atol_refuted). *)
+   (* order_invariant for the assembled ARRAY of get_volume_from_series / Image.get_volume (which dataset /
+      frame lands in which slot): follows from C11_order_invariant only where the index assignment is
+      injective on positions; not stated.  Proved: the verdict, spacing and per-plane indices
+      (C11_order_invariant) and the geometry (C11_geometry_order_invariant_all) for ALL stacks. *) *)
 From Coq Require Import String ZArith List Bool QArith Qround Permutation Sorted Lia.
-From HD Require Import Base.Val C11_Model C11_Proofs C11_Proofs_Stack C11_Proofs_Sort C11_Proofs_Mono C11_Proofs_Rank C11_Proofs_Top.
+From HD Require Import Base.Val C11_Model C11_Proofs C11_Proofs_Stack C11_Proofs_Sort C11_Proofs_Mono C11_Proofs_Rank C11_Proofs_Top
+  C11_Proofs_Perm C11_Proofs_Hint C11_Proofs_Gaps C11_Proofs_Geom.
 Import ListNotations.
 Open Scope Q_scope.
 
@@ -357,3 +361,204 @@ Theorem C11_plane_sort_orders : forall ps rowc colc c0 c1 rh si,
     Sorted Qle (map (fun j => dot nv (nthV ps j)) si).
 Proof. exact plane_sort_orders. Qed.
 Print Assumptions C11_plane_sort_orders.
+
+(* ==== extension: order_invariant at full strength, hints, gaps, refutation ============================== *)
+
+(* ---- order_invariant, sort = True, EVERY stack (regular, irregular, sheared, with duplicates / gaps), every
+   option, hint and tolerance: permuting the input changes neither the verdict (same exception, same
+   rejection) nor the spacing, and there is ONE assignment f from plane position to volume index that
+   yields both index lists - every plane keeps its index whatever the order of the input.
+   (same_verdict ps ps2 r r2 := match r, r2 with Ok (Some (sp, idx)), Ok (Some (sp2, idx2)) => sp = sp2 /\
+      exists f, idx = map f (map vred ps) /\ idx2 = map f (map vred ps2) | Ok None, Ok None => True
+      | Err k, Err k2 => k = k2 | _, _ => False end) *)
+Theorem C11_order_invariant : forall ps ps2 rowc colc o,
+  o_sort o = true -> Permutation ps ps2 ->
+  same_verdict ps ps2 (get_volume_positions ps rowc colc o) (get_volume_positions ps2 rowc colc o).
+Proof. exact gvp_order_invariant. Qed.
+Print Assumptions C11_order_invariant.
+
+(* its engine: np.unique(axis=0) of a permuted list of (canonical) positions is the same list *)
+Theorem C11_unique_positions_order_free : forall l l2,
+  Forall canon l -> Permutation l l2 -> lexuniq l = lexuniq l2.
+Proof. exact lexuniq_perm. Qed.
+Print Assumptions C11_unique_positions_order_free.
+
+(* non-vacuity: an irregular stack (rejected in both orders), a regular stack with a duplicate and a stack
+   with a gap (accepted in both orders with permuted index lists), a hint mismatch (same exception) *)
+Example C11_order_invariant_nonvacuous :
+  let rowc := V3 (-4#5) (3#5) 0 in let colc := V3 0 0 1 in
+  let o m d h := mkOpts None None true m d h DirR DirD true false in
+  let irr := [V3 (9#5) (12#5) 0; V3 0 0 0; V3 (3#5) (4#5) 0] in
+  Permutation irr (rev irr) /\
+  mismatches
+    [run_gvp irr rowc colc (o false false None); run_gvp (rev irr) rowc colc (o false false None);
+     run_gvp irr rowc colc (o true false None); run_gvp (rev irr) rowc colc (o true false None);
+     run_gvp ex_stack rowc colc (o false true None); run_gvp (rev ex_stack) rowc colc (o false true None);
+     run_gvp ex_stack rowc colc (o false true (Some 2)); run_gvp (rev ex_stack) rowc colc (o false true (Some 2))]
+    [VNone; VNone; VL [VQ 1; vz_list [3;0;1]%Z]; VL [VQ 1; vz_list [1;0;3]%Z];
+     VL [VQ 1; vz_list [2;0;1;0]%Z]; VL [VQ 1; vz_list [0;1;0;2]%Z];
+     VErr "RuntimeError"; VErr "RuntimeError"] = [].
+Proof. cbv zeta. split; [apply Permutation_rev|vm_compute; reflexivity]. Qed.
+Print Assumptions C11_order_invariant_nonvacuous.
+
+(* ---- regular_accepted with a spacing hint (sort = True, gaps not allowed): a regular stack passed in any
+   order is accepted - spacing s, every plane its rank - iff the (normalised) hint is within atol + rtol*h
+   of s; otherwise RuntimeError.  hint_matches rtol atol s hint := match hint with Some h => isclose rtol
+   atol s h | None => true end; norm_hint takes the absolute value of a negative hint and refuses 0. *)
+Theorem C11_regular_accepted_hint : forall ps rowc colc o nv rtol atol a s r M hint,
+  o_sort o = true -> o_missing o = false -> norm_hint (o_hint o) = Ok hint ->
+  tolerances (o_rtol o) (o_atol o) = Ok (rtol, atol) -> 0 <= rtol -> 0 <= atol ->
+  normal_vector rowc colc (o_c0 o) (o_c1 o) (o_rh o) = Ok nv ->
+  regular_stack nv a s r M (map vred ps) ->
+  (o_dups o = true \/ length ps = M) ->
+  exists sp, sp == s /\
+    get_volume_positions ps rowc colc o =
+      if hint_matches rtol atol s hint
+      then Ok (Some (sp, map (fun p => Z.of_nat (r p)) (map vred ps)))
+      else Err "RuntimeError"%string.
+Proof. exact regular_accepted_hint. Qed.
+Print Assumptions C11_regular_accepted_hint.
+
+Example C11_regular_accepted_hint_nonvacuous :
+  let rowc := V3 (-4#5) (3#5) 0 in let colc := V3 0 0 1 in
+  hint_matches (1#100) 0 1 (Some (201#200)) = true /\ hint_matches (1#100) 0 1 (Some (3#2)) = false /\
+  norm_hint (Some (-(201#200))) = Ok (Some (201#200)) /\
+  mismatches
+    [run_gvp ex_stack rowc colc (mkOpts None None true false true (Some (-(201#200))) DirR DirD true false);
+     run_gvp ex_stack rowc colc (mkOpts None None true false true (Some (3#2)) DirR DirD true false)]
+    [VL [VQ 1; vz_list [2;0;1;0]%Z]; VErr "RuntimeError"] = [].
+Proof. cbv zeta. repeat split; vm_compute; reflexivity. Qed.
+Print Assumptions C11_regular_accepted_hint_nonvacuous.
+
+(* ---- dups_and_gaps, acceptance with gaps allowed: gapped_stack nv a s r K L: every position has a rank in
+   0..K, distance a + rank*s (s > 0), equal ranks = equal positions, ranks 0 and K occur (others may be
+   missing), unsheared rank-0-to-rank-K vector.  spacing_known: the hint equals s, or - without hint - s
+   exceeds the equality tolerance 1e-5 and two planes of adjacent ranks are present (then the smallest
+   consecutive spacing of the sorted distances IS s: C11_min_spacing).  Then, in ANY input order, with
+   duplicates iff declared: spacing s and, for every plane, its rank. *)
+Theorem C11_gaps_accepted : forall ps rowc colc o nv rtol atol a s r K hint,
+  o_sort o = true -> o_missing o = true -> norm_hint (o_hint o) = Ok hint ->
+  tolerances (o_rtol o) (o_atol o) = Ok (rtol, atol) -> 0 <= rtol -> 0 <= atol ->
+  normal_vector rowc colc (o_c0 o) (o_c1 o) (o_rh o) = Ok nv ->
+  gapped_stack nv a s r K (map vred ps) ->
+  spacing_known s r (map vred ps) hint ->
+  (o_dups o = true \/ length (lexuniq (map vred ps)) = length ps) ->
+  exists sp, sp == s /\
+    get_volume_positions ps rowc colc o = Ok (Some (sp, map (fun p => Z.of_nat (r p)) (map vred ps))).
+Proof. exact gaps_accepted. Qed.
+Print Assumptions C11_gaps_accepted.
+
+Definition ex_gap : list vec3 := [V3 (9#5) (12#5) 0; V3 0 0 0; V3 (3#5) (4#5) 0; V3 0 0 0].
+Example C11_gapped_stack_nonvacuous :
+  gapped_stack ex_nv 0 1 ex_rank 3 (map vred ex_gap) /\
+  spacing_known 1 ex_rank (map vred ex_gap) None /\ spacing_known 1 ex_rank (map vred ex_gap) (Some 1) /\
+  mismatches
+    [run_gvp ex_gap (V3 (-4#5) (3#5) 0) (V3 0 0 1) (mkOpts None None true true true None DirR DirD true false);
+     run_gvp ex_gap (V3 (-4#5) (3#5) 0) (V3 0 0 1) (mkOpts None None true true true (Some 1) DirR DirD true false);
+     run_gvp ex_gap (V3 (-4#5) (3#5) 0) (V3 0 0 1) (mkOpts None None true false true None DirR DirD true false)]
+    [VL [VQ 1; vz_list [3;0;1;0]%Z]; VL [VQ 1; vz_list [3;0;1;0]%Z]; VNone] = [].
+Proof.
+  let L := eval vm_compute in (map vred ex_gap) in change (map vred ex_gap) with L.
+  split; [|split; [|split; [vm_compute; reflexivity|vm_compute; reflexivity]]].
+  - unfold gapped_stack. split; [reflexivity|]. split; [apply le_n_S, Nat.le_0_l|].
+    split; [intros p Hp; repeat (destruct Hp as [<-|Hp]; [vm_compute; reflexivity|]); contradiction|].
+    split.
+    { intros p q Hp Hq; repeat (destruct Hp as [<-|Hp]; [|]); try contradiction;
+        repeat (destruct Hq as [<-|Hq]; [|]); try contradiction; vm_compute; intro E;
+        first [reflexivity|discriminate E]. }
+    split; [eexists; split; [right; left; reflexivity|vm_compute; reflexivity]|].
+    split; [eexists; split; [left; reflexivity|vm_compute; reflexivity]|].
+    split; [intros p Hp; repeat (destruct Hp as [<-|Hp]; [vm_compute; repeat constructor|]); contradiction|].
+    intros p0 p1 H0 H1; repeat (destruct H0 as [<-|H0]; [|]); try contradiction;
+      repeat (destruct H1 as [<-|H1]; [|]); try contradiction; vm_compute; intros E0 E1;
+      first [reflexivity|discriminate E0|discriminate E1].
+  - split; [reflexivity|]. eexists; eexists. split; [right; left; reflexivity|].
+    split; [right; right; left; reflexivity|vm_compute; reflexivity].
+Qed.
+Print Assumptions C11_gapped_stack_nonvacuous.
+
+(* the inferred spacing: smallest consecutive spacing of the sorted distances of the unique positions *)
+Theorem C11_min_spacing : forall nv a s r L,
+  0 < s ->
+  (forall p, In p L -> dot nv p == a + inject_Z (Z.of_nat (r p)) * s) ->
+  (forall p q, In p L -> In q L -> r p = r q -> veqb p q = true) ->
+  (exists p q, In p L /\ In q L /\ r q = S (r p)) ->
+  let ds := map (dot nv) (lexuniq L) in
+  min_list (diffs (map (nthQ ds) (argsort ds))) == s.
+Proof. exact min_spacing_is_s. Qed.
+Print Assumptions C11_min_spacing.
+
+(* ---- unsorted_mode converse for atol > 0: REFUTED.  Distances 0, 2, 1, 3 along the normal, examined in the
+   order passed (sort = False) with atol = 2 (twice the spacing) and enforce_handedness: accepted although the
+   order is not monotone.  Replayed on the real code: get_volume_positions([[0,0,0],[0,0,2],[0,0,1],[0,0,3]],
+   [1,0,0,0,1,0], sort=False, atol=2.0, index_convention='RD', enforce_handedness=True) = (1.0, [0,1,2,3]). *)
+Theorem C11_unsorted_converse_atol_refuted :
+  exists uniq uidx nv atol enforce sp idx,
+    gvp_core uniq uidx nv 0 atol false false enforce None = Ok (Some (sp, idx)) /\
+    ~ (Forall (fun x => 0 < x) (diffs (map (dot nv) uniq)) \/
+       Forall (fun x => x < 0) (diffs (map (dot nv) uniq))).
+Proof. exact unsorted_converse_atol_refuted. Qed.
+Print Assumptions C11_unsorted_converse_atol_refuted.
+
+(* ---- geometry of a multi-frame image, order_invariant for ALL stacks and declarations: permuting the frames
+   gives the same verdict (geometry / None / same exception), the same number of slices, spacing and slice
+   axis, and both origins are positions of frames which the common index assignment f puts at index 0.
+   (same_geometry f ps ps2 r r2 := match r, r2 with Ok (Some g), Ok (Some g2) => g_nsl g = g_nsl g2 /\
+      g_spacing g = g_spacing g2 /\ g_normal g = g_normal g2 /\ In (g_origin g) ps /\ In (g_origin g2) ps2 /\
+      f (vred (g_origin g)) = 0 /\ f (vred (g_origin g2)) = 0 | Ok None, Ok None => True
+      | Err k, Err k2 => k = k2 | _, _ => False end) *)
+Theorem C11_geometry_order_invariant_all : forall ps ps2 rowc colc hint rtol atol seg om od,
+  Permutation ps ps2 ->
+  exists f,
+    same_geometry f ps ps2 (multiframe_geometry ps rowc colc hint rtol atol seg om od)
+                           (multiframe_geometry ps2 rowc colc hint rtol atol seg om od) /\
+    forall sp idx, get_volume_positions ps rowc colc (vol_opts rtol atol (eff_missing seg om) (eff_dups od) hint)
+                     = Ok (Some (sp, idx)) -> idx = map f (map vred ps).
+Proof. exact geometry_order_invariant_all. Qed.
+Print Assumptions C11_geometry_order_invariant_all.
+
+(* geometry of a regular stack under a shared SpacingBetweenSlices (hint0): M slices iff the hint matches *)
+Theorem C11_geometry_regular_hint : forall ps rowc colc hint0 hint rtol atol seg om od nv rt at_ a s r M,
+  eff_missing seg om = false -> norm_hint hint0 = Ok hint ->
+  tolerances rtol atol = Ok (rt, at_) -> 0 <= rt -> 0 <= at_ ->
+  normal_vector rowc colc DirD DirR true = Ok nv ->
+  regular_stack nv a s r M (map vred ps) ->
+  (eff_dups od = true \/ length ps = M) ->
+  if hint_matches rt at_ s hint
+  then exists g, multiframe_geometry ps rowc colc hint0 rtol atol seg om od = Ok (Some g) /\
+         g_nsl g = Z.of_nat M /\ g_spacing g == s /\ In (g_origin g) ps /\ r (vred (g_origin g)) = 0%nat
+  else multiframe_geometry ps rowc colc hint0 rtol atol seg om od = Ok None.
+Proof. exact geometry_regular_hint. Qed.
+Print Assumptions C11_geometry_regular_hint.
+
+(* geometry with gaps allowed (Segmentation default, or declared): K + 1 slices, spacing s, rank-0 origin *)
+Theorem C11_geometry_gaps_accepted : forall ps rowc colc hint0 hint rtol atol seg om od nv rt at_ a s r K,
+  eff_missing seg om = true -> norm_hint hint0 = Ok hint ->
+  tolerances rtol atol = Ok (rt, at_) -> 0 <= rt -> 0 <= at_ ->
+  normal_vector rowc colc DirD DirR true = Ok nv ->
+  gapped_stack nv a s r K (map vred ps) ->
+  spacing_known s r (map vred ps) hint ->
+  (eff_dups od = true \/ length (lexuniq (map vred ps)) = length ps) ->
+  exists g, multiframe_geometry ps rowc colc hint0 rtol atol seg om od = Ok (Some g) /\
+    g_nsl g = (Z.of_nat K + 1)%Z /\ g_spacing g == s /\ In (g_origin g) ps /\ r (vred (g_origin g)) = 0%nat.
+Proof. exact geometry_gaps_accepted. Qed.
+Print Assumptions C11_geometry_gaps_accepted.
+
+(* non-vacuity for the three geometry theorems: ex_gap (ranks 3,0,1,0) through the Segmentation defaults
+   (gaps allowed): 4 slices; the frames reversed: identical geometry; Image defaults: None; ex_stack with a
+   matching / mismatching shared SpacingBetweenSlices through the Image defaults *)
+Example C11_geometry_ext_nonvacuous :
+  let rowc := V3 0 0 1 in let colc := V3 (-4#5) (3#5) 0 in
+  normal_vector rowc colc DirD DirR true = Ok ex_nv /\
+  mismatches
+    [run_mf_geometry ex_gap rowc colc None None None true None None;
+     run_mf_geometry (rev ex_gap) rowc colc None None None true None None;
+     run_mf_geometry ex_gap rowc colc None None None false None None;
+     run_mf_geometry (rev ex_gap) rowc colc None None None false None None;
+     run_mf_geometry ex_stack rowc colc (Some (201#200)) None None false None None;
+     run_mf_geometry ex_stack rowc colc (Some (3#2)) None None false None None]
+    [VL [VZ 4; VQ 1; vvec (V3 0 0 0); vvec (V3 (3#5) (4#5) 0)];
+     VL [VZ 4; VQ 1; vvec (V3 0 0 0); vvec (V3 (3#5) (4#5) 0)]; VNone; VNone;
+     VL [VZ 3; VQ 1; vvec (V3 0 0 0); vvec (V3 (3#5) (4#5) 0)]; VNone] = [].
+Proof. cbv zeta. split; vm_compute; reflexivity. Qed.
+Print Assumptions C11_geometry_ext_nonvacuous.
